@@ -290,6 +290,7 @@ class ApplyROI(Command):
 
     def do(self, session):
         self.old_states = {}
+        self.old_groups = list(self.data_collection.subset_groups)
         for data in self.data_collection:
             for subset in data.subsets:
                 self.old_states[subset] = subset.subset_state
@@ -299,7 +300,12 @@ class ApplyROI(Command):
     def undo(self, session):
         for data in self.data_collection:
             for subset in data.subsets:
-                if subset not in self.old_states:
+                # only subsets of subset groups created by this command are
+                # removed - a dataset that was removed from and added back to
+                # the collection in the meantime has new subset objects for the
+                # groups that already existed
+                if (subset not in self.old_states and
+                        getattr(subset, 'group', None) not in self.old_groups):
                     subset.delete()
 
         for k, v in self.old_states.items():
@@ -325,6 +331,7 @@ class ApplySubsetState(Command):
     def do(self, session):
 
         self.old_states = {}
+        self.old_groups = list(self.data_collection.subset_groups)
         for data in self.data_collection:
             for subset in data.subsets:
                 self.old_states[subset] = subset.subset_state
@@ -342,7 +349,12 @@ class ApplySubsetState(Command):
     def undo(self, session):
         for data in self.data_collection:
             for subset in data.subsets:
-                if subset not in self.old_states:
+                # only subsets of subset groups created by this command are
+                # removed - a dataset that was removed from and added back to
+                # the collection in the meantime has new subset objects for the
+                # groups that already existed
+                if (subset not in self.old_states and
+                        getattr(subset, 'group', None) not in self.old_groups):
                     subset.delete()
 
         for k, v in self.old_states.items():
